@@ -101,7 +101,12 @@ DKDecos ==
    [format |-> "email"], [format |-> "no-such-format"], [contentEncoding |-> "base64"], [contentMediaType |-> "application/json"],
    [contentSchema |-> FalseS], [contentSchema |-> [type |-> "null"]],
    [default |-> Null], [default |-> Str("a")], [default |-> Obj([zz |-> Num(R_1)])], [examples |-> <<Null, Str("a")>>], [examples |-> <<>>],
-   [defs |-> [unused |-> FalseS]], [definitions |-> [unused |-> FalseS]], [defs |-> [unused |-> [type |-> "null"], u2 |-> FalseS]]}
+   [defs |-> [unused |-> FalseS]], [definitions |-> [unused |-> FalseS]], [defs |-> [unused |-> [type |-> "null"], u2 |-> FalseS]],
+   \* combinations: no pair of non-asserting keywords is contradictory for the validator
+   [readOnly |-> TRUE, writeOnly |-> TRUE], [deprecated |-> TRUE, readOnly |-> TRUE, writeOnly |-> TRUE, title |-> "t", description |-> "d"],
+   [title |-> "t", description |-> "d", comment |-> "c", format |-> "email", contentEncoding |-> "base64", contentMediaType |-> "application/json",
+    contentSchema |-> FalseS, default |-> Str("a"), examples |-> <<Null>>, deprecated |-> TRUE, readOnly |-> TRUE],
+   [format |-> "date-time", contentEncoding |-> "no-such-encoding", contentMediaType |-> "no/such", default |-> Obj([zz |-> Null]), examples |-> <<>>]}
 DKRawKeys ==
   {<<"x", Num(R_1)>>, <<"x", Null>>, <<"x", Obj([type |-> Str("a")])>>, <<"Type", Str("string")>>, <<"TYPE", Str("null")>>,
    <<"MINIMUM", Num(R_5)>>, <<"Minimum", Num(R_5)>>, <<"Required", Arr(<<Str("zz")>>)>>, <<"$REF", Str("#")>>, <<"ITEMS", Bool(FALSE)>>,
